@@ -1229,7 +1229,9 @@ func (c *Client) RemoteUpdate(
 	}
 
 	// execute or fallback
-	c.clockUpdate(update, false)
+	if !c.clockUpdate(update, false) {
+		c.Sync()
+	}
 
 	return nil
 }
